@@ -79,6 +79,7 @@ fn templates() -> Vec<T> {
         t("type_map", "nest", ct, "c ", "Map(INT, ", "INT", ")", "", ") ENGINE=MergeTree ORDER BY c", ", ", &["clickhouse", "generic"], &["parse_click_house_map_def", "parse_data_type_helper"]),
         t("type_array_parens", "nest", ct, "c ", "Array(", "INT", ")", "", ") ENGINE=MergeTree ORDER BY c", ", ", &["clickhouse"], &["parse_sub_type", "parse_data_type_helper"]),
         t("cast_type_array", "nest", sel, "CAST(1 AS ", "ARRAY<", "INT", ">", ")", "", ", ", &["bigquery", "generic"], &["parse_data_type", "parse_data_type_helper", "parse_sub_type"]),
+        t("pattern_alt_groups", "nest", "SELECT * FROM t MATCH_RECOGNIZE(PATTERN (", "", "B | (", "A", ")", "", ") DEFINE A AS true)", " ", &["snowflake", "generic"], &["parse_pattern", "parse_concat_pattern", "parse_repetition_pattern", "parse_base_pattern", "parse_match_recognize"]),
         t("pattern_groups", "nest", "SELECT * FROM t MATCH_RECOGNIZE(PATTERN (", "", "(", "A", ")", "", ") DEFINE A AS true)", " ", &["snowflake", "generic"], &["parse_pattern", "parse_concat_pattern", "parse_repetition_pattern", "parse_base_pattern", "parse_match_recognize"]),
         t("lambda", "nest", sel, "", "f(x -> ", "x", ")", "", "", ", ", &["databricks", "duckdb", "generic"], &["try_parse_lambda", "parse_function"]),
         // ---- long inputs of bounded nesting (must never be rejected by the limit)
